@@ -44,9 +44,9 @@ variable (fold : Nat → Nat)
 /-- contracts of the callees (each a theorem of its own) -/
 structure DHyp (E : DEnv) (sub : Bytes) : Prop where
   hIB : ∀ s, sub.length = 1 → (decodeRune sub).1 ≠ runeError → IsIndex fold s sub (E.indexByte s (sub.headD 0))
-  hIR : ∀ s, sub.length = (decodeRune sub).2 → IsIndex fold s sub (E.indexRune s (decodeRune sub).1)
+  hIR : ∀ s, sub ≠ [] → sub.length = (decodeRune sub).2 → IsIndex fold s sub (E.indexRune s (decodeRune sub).1)
   /-- as a first-rune filter -/
-  hIR2 : ∀ s, (E.indexRune s (decodeRune sub).1 < 0 → ∀ j, IsBoundary s j → ¬ Match fold (s.drop j) sub) ∧
+  hIR2 : ∀ s, sub ≠ [] → (E.indexRune s (decodeRune sub).1 < 0 → ∀ j, IsBoundary s j → ¬ Match fold (s.drop j) sub) ∧
               (0 ≤ E.indexRune s (decodeRune sub).1 →
                 IsBoundary s (E.indexRune s (decodeRune sub).1).toNat ∧
                 ∀ j, IsBoundary s j → j < (E.indexRune s (decodeRune sub).1).toNat → ¬ Match fold (s.drop j) sub)
@@ -76,11 +76,12 @@ theorem Index_correct {E : DEnv} {sub : Bytes} (H : DHyp fold E sub) (s : Bytes)
     refine ⟨0, rfl, isBoundary_zero s, ?_, fun j _ hj => by omega⟩
     simp [Match, fdec, dec_nil]
   rw [if_neg h0]
+  have hsne : sub ≠ [] := fun h => h0 (by rw [h]; rfl)
   by_cases h1 : sub.length = 1 ∧ (decodeRune sub).1 ≠ runeError
   · rw [if_pos h1]; exact H.hIB s h1.1 h1.2
   rw [if_neg h1]
   by_cases h2 : sub.length = (decodeRune sub).2
-  · rw [if_pos h2]; exact H.hIR s h2
+  · rw [if_pos h2]; exact H.hIR s hsne h2
   rw [if_neg h2]
   by_cases h3 : sub.length ≥ s.length
   · rw [if_pos h3]
@@ -91,7 +92,7 @@ theorem Index_correct {E : DEnv} {sub : Bytes} (H : DHyp fold E sub) (s : Bytes)
       have := H.hW3 _ hm
       simp only [List.length_drop] at this; omega
     rw [if_neg h4]
-    obtain ⟨hneg, hpos⟩ := H.hIR2 s
+    obtain ⟨hneg, hpos⟩ := H.hIR2 s hsne
     by_cases h5 : E.indexRune s (decodeRune sub).1 < 0
     · rw [if_pos h5]; exact isIndex_none_of_short (hneg h5)
     rw [if_neg h5]
